@@ -503,6 +503,15 @@ def gen_hostile(quick, seed):
               'x = -(%s)\nprobe(x)' % INT_MIN_EXPR, "x = 1e308 * 10\nprobe(x)", "x = nan == nan\nprobe(x)",
               'for v in fs { probe(v) }', 'x = fs + tg\nprobe(x)', "x = fi / nosuch", "x = fi % fn"]:
         add(t, "hostile atoms")
+    # values that have no JSON text (non-finite floats, self-containing collections) stored into the point and read back
+    unjson = ['big = 1e308 * 10.0\nadd_key(hk, [1, big])', 'add_key(hk, {"a": nan})', 'a = [0]\na[0] = a\nadd_key(hk, a)',
+              'm = {}\nm["m"] = m\nadd_key(hk, m)', 'add_key(fs, [inf])', 'add_key(tg, [inf])', 'add_key(hk, [[-inf]])']
+    reads = ["n = len(hk)", "x = hk[0:1]", "x = load_json(hk)", 'q = {"a": 1}\nx = q[hk]', 'x = hk + "s"', "for c in hk { probe(c) }",
+             'x = "a" in hk', "x = hk[0]", "trim(hk)", 'cast(hk, "int")', "set_tag(hk)", "x = len(fs)\ny = fs[0:1]", "x = len(tg)",
+             "rename(nk, hk)\nx = len(nk)", "uppercase(hk)", "add_key(hk2, hk)\nx = len(hk2)", "if hk { probe(2) }", "x = !hk", "x = -hk"]
+    for u in unjson:
+        for r in reads:
+            add(u + "\n" + r, "values without JSON text stored into the point, then read")
     return out
 
 
